@@ -11,7 +11,8 @@ from vp import sim as S
 from vp import invariants as I
 
 ID = 'C16'
-RULE = ('Valid powertrains (as C01, optional duty-cycle histories), a sensor (encoder / tachometer on any element, '
+RULE = ('Valid powertrains (as C01, optional duty-cycle histories; a third are self-locking drives under loads up to 100x '
+        'stall, so that the condition may first hold while the powertrain is held), a sensor (encoder / tachometer on any element, '
         'amperometer on the motor), one of the five operators and a threshold in a random unit placed before, inside '
         'or beyond the reachable range: the case carries a quantile q and an offset, and the checker derives the '
         'threshold from the sensed series of the UN-STOPPED run of the same case (deterministic); exact-tie cases use '
@@ -19,7 +20,8 @@ RULE = ('Valid powertrains (as C01, optional duty-cycle histories), a sensor (en
         'first instant k >= 1 of the un-stopped series at which the comparison holds (exact SI, margin policy); the '
         'stopped run must be bit-identical to the prefix 0..k of the un-stopped run, the comparison recomputed from '
         'the recorded series is false at instants 1..k-1 and true at k, and nothing is recorded after k; if it never '
-        'holds the two runs are identical. Non-trivial = the run stopped strictly inside (1 < k < n); distinct = '
+        'holds the two runs are identical. In a quarter of the cases the stopped run is followed by reset + rerun with '
+        'the same StopCondition object, which must stop at the same instant. Non-trivial = the run stopped strictly inside (1 < k < n); distinct = '
         'canonical JSON.')
 ASSUMPTIONS = ['cases where the reading comes within 1e-9 (relative to the series scale) of the threshold at or before '
                'the expected stop are not judged, unless the tie is exact (same unit, identical number)']
@@ -88,6 +90,10 @@ def check(case) -> Result:
         return res
     stopped_case = dict(base, stop={'sensor': sensor, 'target': target, 'op': op, 'threshold': thr_pair})
     stopped_case['history'] = [dict(o, stop=True) if o['op'] == 'run' else o for o in base['history']]
+    if st_.get('rerun'):
+        # the same StopCondition object serves a second epoch: run (stop), reset, re-apply initial conditions, run (stop)
+        stopped_case['history'] = stopped_case['history'] + [{'op': 'reset', 'reinit': True}] + \
+            [dict(o, new_solver=bool(st_.get('new_solver'))) for o in stopped_case['history']]
     try:
         bs, ts, es = S.simulate(stopped_case)
     except Exception as e:  # noqa
@@ -96,7 +102,14 @@ def check(case) -> Result:
     if es is not None:
         res.bad(f'C16/stopped-run-raises/{type(es).__name__}', f'stop {stopped_case["stop"]}: {type(es).__name__}: {es}')
         return res
-    s = ts[-1]
+    s = ts[0]
+    if st_.get('rerun') and len(ts) >= 3:
+        s2 = ts[-1]
+        if s2.n != s.n or not np.array_equal(s2.t, s.t) or any(
+                not np.array_equal(s2.vars[i][v], s.vars[i][v]) for i in range(mdl.n) for v in s.vars[i]
+                if s.vars[i][v] is not None and s2.vars[i].get(v) is not None):
+            res.bad('C16/rerun-stops-elsewhere', f'stop when {sensor}[{target}] {op} {thr_pair}: first epoch recorded '
+                    f'{s.n} instants, the rerun after reset (same StopCondition object) {s2.n}')
     desc = f'stop when {sensor}[{target}] {op} {thr_pair} (SI {thr_si!r}); un-stopped run has {u.n} instants'
     if s.n != upto:
         if kexp is not None and s.n == u.n:
@@ -138,7 +151,13 @@ def check(case) -> Result:
 
 @st.composite
 def s_case(draw, max_len=5, max_steps=40):
-    case = draw(G.s_case_controlled(max_len=max_len, max_steps=max_steps, histories=('run',), currents=True))
+    if draw(st.integers(0, 2)) == 0:
+        # self-locking drives under heavy loads: the condition may first hold while the powertrain is held
+        from vp.props import c13 as C13
+        case = draw(C13.s_case(max_len=max_len, max_steps=max_steps))
+        case['history'] = case['history'][:1]
+    else:
+        case = draw(G.s_case_controlled(max_len=max_len, max_steps=max_steps, histories=('run',), currents=True))
     sensor = draw(st.sampled_from(['encoder', 'encoder', 'tachometer', 'tachometer', 'amperometer']))
     kind = SENSOR_VAR[sensor][1]
     spec = {'sensor': sensor, 'target': draw(st.integers(0, 12)),
@@ -147,6 +166,9 @@ def s_case(draw, max_len=5, max_steps=40):
             'unit': draw(G.s_unit(kind))}
     if spec['op'] == 'eq' or draw(st.integers(0, 5)) == 0:
         spec['exact_tie'] = draw(st.integers(0, 200))
+    if draw(st.integers(0, 3)) == 0:
+        spec['rerun'] = True
+        spec['new_solver'] = draw(st.booleans())
     case['stop_spec'] = spec
     return case
 
